@@ -133,7 +133,7 @@ def build_field(case):
             arr = gen.make_array(case["seed"], (*n, 1), "int")
         if case.get("int_dtype") and kind == "random-scalar":
             arr = arr.astype(np.int64)
-            return mesh, df.Field(mesh, nvdim=1, value=arr, dtype=np.int64), arr, None
+            return mesh, df.Field(mesh, nvdim=1, value=np.array(arr, copy=True), dtype=np.int64), arr, None
         if case.get("int_dtype") and kind == "linear-scalar" and all(float(a).is_integer() for a in case["a"]):
             # integer-valued linear scalar stored with an integer dtype (values at the cell centres are half-integers
             # times integers: scale by 2 to stay integral)
@@ -143,7 +143,7 @@ def build_field(case):
                 return mesh, df.Field(mesh, nvdim=1, value=arr2, dtype=np.int64), arr2.astype(float), None
         # a scalar field may carry a name for its single component, with or without a mapping: it rotates all the same
         skw = [{}, {"vdims": ["T"]}, {"vdims": ["rho"], "vdim_mapping": {"rho": "z"}}][case["seed"] % 3]
-        return mesh, df.Field(mesh, nvdim=1, value=arr, **skw), arr, None
+        return mesh, df.Field(mesh, nvdim=1, value=np.array(arr, copy=True), **skw), arr, None
     labels = case["vdims"] or ["x", "y", "z"]
     # component c is mapped to axis perm[c]
     mapping = {labels[i]: dims[case["perm"][i]] for i in range(3)}
@@ -154,7 +154,7 @@ def build_field(case):
         arr = gen.make_array(case["seed"], (*n, 3), "int")
     kw = {"vdims": list(case["vdims"])} if case["vdims"] else {}
     mapping = gen.shuffled_mapping(mapping, case["seed"])
-    return mesh, df.Field(mesh, nvdim=3, value=arr, vdim_mapping=mapping, **kw), arr, case["perm"]
+    return mesh, df.Field(mesh, nvdim=3, value=np.array(arr, copy=True), vdim_mapping=mapping, **kw), arr, case["perm"]
 
 
 def nontrivial(case):
@@ -274,7 +274,7 @@ def check_quarter(case):
     kw = {}
     if k == 3:
         kw["vdim_mapping"] = gen.shuffled_mapping({["x", "y", "z"][i]: dims[case["perm"][i]] for i in range(3)}, case["seed"])
-    f = df.Field(mesh, nvdim=k, value=arr, **kw)
+    f = df.Field(mesh, nvdim=k, value=np.array(arr, copy=True), **kw)
     ax = case["axis"]
     a, b = [(1, 2), (2, 0), (0, 1)][ax]  # right-handed: rotation about ax turns a towards b
     ref = f.rotate90(dims[a], dims[b], k=case["k"])
